@@ -200,6 +200,12 @@ def _run_reader(stream, log, on_err, validate, parsed, quit, handler, labelmsm, 
             last = events[-1]
         if raw is None and msg is None:
             last["then"] = "eof"
+            # a timeout / empty answer is not the end of the data: the client may call again
+            # (only when the stream says it still holds bytes, and a bounded number of times)
+            retries_left = getattr(stream, "_verif_retries", 0)
+            if retries_left > 0 and not getattr(stream, "drained", True):
+                stream._verif_retries = retries_left - 1
+                continue
             break
         last["then"] = "ret"
         last["raw"] = list(raw) if raw is not None else []
